@@ -204,7 +204,7 @@ def run(res, replay=None):
                     if got != mref and got == want and len(res.mismatches) < 5:
                         pass
                 if got != want and len(res.oracle_failures) < 5:
-                    res.oracle_failures.append(("# session:\n" + "\n".join(db.log[-400:]), "join answer differs from the naive evaluation (plan %s): %s => engine %s | reference %s" % (key, sql, got[:300], want[:300])))
+                    res.oracle_failures.append(("# session:\n" + "\n".join(db.log[-4000:]), "join answer differs from the naive evaluation (plan %s): %s => engine %s | reference %s" % (key, sql, got[:300], want[:300])))
                 if db.dead:
                     res.oracle_failures.append(("# session:\n" + "\n".join(db.log[-100:]), "engine stopped answering: " + db.dead)); break
             if len(res.samples) < 3:
